@@ -4,6 +4,7 @@
 package fsx
 
 import (
+	"fmt"
 	"sort"
 	"strings"
 
@@ -26,6 +27,16 @@ func (n *Node) Qid() p9p.Qid {
 	q := p9p.Qid{Path: n.ID, Version: uint32(n.ID * 3)}
 	if n.Dir {
 		q.Type = p9p.QTDIR
+	}
+	// qid type bits besides QTDIR, selected by name: an append-only / temporary / exclusive-use
+	// directory is still a directory
+	switch {
+	case strings.HasPrefix(n.Name, "dappend"):
+		q.Type |= p9p.QTAPPEND
+	case strings.HasPrefix(n.Name, "dtmp"):
+		q.Type |= p9p.QTTMP
+	case strings.HasPrefix(n.Name, "dexcl"):
+		q.Type |= p9p.QTEXCL
 	}
 	return q
 }
@@ -227,8 +238,13 @@ func NewTree() (*Node, *uint64) {
 	for _, n := range []string{"ofail1", "kfail1", "rfail1", "iofail1", "sfail1", "onil1", "wfail1", "wnil1"} {
 		mk(root, n, false)
 	}
-	for _, n := range []string{"odfail1", "odnil1", "kfaildir"} {
+	for _, n := range []string{"odfail1", "odnil1", "kfaildir", "dappend", "dtmp", "dexcl"} {
 		mk(root, n, true)
+	}
+	// a chain deeper than the 16 names one Twalk can carry: /p1/p2/.../p20
+	cur := root
+	for i := 1; i <= 20; i++ {
+		cur = mk(cur, fmt.Sprintf("p%d", i), true)
 	}
 	return root, id
 }
